@@ -173,7 +173,116 @@ def m2_orphan_retention_horizon(S):
     S.witness(ctx, ob, "reach_expired", pre, out)
 
 
-OBLIGATIONS = [m1_tip_switch, m2_orphan_retention_horizon]
+def m3_find_fork(S):
+    """`find_fork` (alignment_fork + find_fork_until_latest_common) executed on concrete fork shapes with symbolic verification flags: it hands reconcile_main_chain
+    attached_blocks = the new branch from the fork point (exclusive) to the new tip in ascending order, detached_blocks = the old main chain above the fork point in ascending order,
+    and dirty_exts = the block exts of the longest not-yet-verified suffix of the new branch, in ascending order -- so that pairing `attached_blocks.skip(verified_len)` with
+    `dirty_exts` position by position (what reconcile_main_chain does when it writes total difficulty and verdicts back) pairs every block with ITS OWN ext.
+    Shapes: new tip 2 above / level with / 1 below the current tip, fork depth 2 (5 shapes x 2^k verification-flag splits by forking)."""
+    from mir2smt.exec import ListV
+    from mir2smt.srcinfo import struct_fields
+    ob = "C01.m3"
+    f = [x for x in S.prog.funcs if x.kind == "fn" and x.short == "find_fork" and "chain/src/verify.rs" in x.name and "{closure" not in x.name]
+    if len(f) != 1:
+        raise Inconclusive(f"find_fork: {len(f)} candidates")
+    ff = struct_fields("chain/src/utils/forkchanges.rs", "ForkChanges")
+    fi = field_index("util/types/src/core/extras.rs", "BlockExt")
+    F = 3       # number of the fork point
+    shapes = [("new_tip_two_above", 5, 7), ("new_tip_one_above", 5, 6), ("new_tip_level", 5, 5), ("new_tip_one_below", 6, 5), ("new_tip_two_below", 7, 5)]
+    for label, cur_tip, new_tip in shapes:
+        ctx = S.ctx(unwind=12)
+        ctx.uninterpreted_unknown_calls = True
+        ctx.max_paths = 600
+        old = {n: f"O{n}" for n in range(F + 1, cur_tip + 1)}
+        new = {n: f"N{n}" for n in range(F + 1, new_tip + 1)}
+        parent = {f"N{n}": (f"N{n - 1}" if n - 1 > F else "F") for n in new}
+        verified = {n: ctx.bool(f"N{n}_already_verified") for n in new if n != new_tip}
+
+        def nmv(ex, v):
+            v = deref(ex, v)
+            return getattr(v, "name", None) or type(v).__name__
+
+        def strip(n):
+            return re.sub(r"^(hash_of|block)\.", "", n)
+
+        def get_block_hash(ex, c, a, d, old=old):
+            nv = deref(ex, a[1])
+            if not isinstance(nv, IntV) or not isinstance(nv.t, int):
+                raise Stop(f"block number is not concrete: {c} {[type(deref(ex,x)).__name__ for x in a]}")
+            n = nv.t
+            name = old.get(n, "F" if n == F else f"main{n}")
+            return mk_option(True, OpaqueV("hash_of." + name, d), d)
+
+        def get_block(ex, c, a, d):
+            return mk_option(True, OpaqueV("block." + strip(nmv(ex, a[1])), "BlockView"), d)
+
+        def get_block_ext(ex, c, a, d, verified=verified):
+            h = strip(nmv(ex, a[1]))
+            n = int(h[1:]) if h[0] == "N" else None
+            vflag = verified.get(n)
+            if vflag is None:
+                raise Stop("ext of an unexpected block " + h)
+            fields = [OpaqueV(f"ext.{h}.{k}", "?") for k in range(len(fi))]
+            fields[fi["verified"]] = mk_option(vflag.t, ex.ctx.fresh_of_type(f"verdict.{h}", "bool"), "Option<bool>")
+            return mk_option(True, AggV(tuple(fields), "BlockExt"), d)
+
+        def parent_hash(ex, c, a, d, parent=parent):
+            b = strip(nmv(ex, a[0]))
+            return OpaqueV("hash_of." + parent.get(b, "P_" + b), d)
+
+        def hash_eq(ex, c, a, d):
+            x, y = strip(nmv(ex, a[0])), strip(nmv(ex, a[1]))
+            r = x == y
+            return BoolV((not r) if c.endswith("::ne") else r)
+        passthru = lambda ex, c, a, d: OpaqueV(nmv(ex, a[0]), d)
+        ctx.env = list(E.LOGGING_OFF) + [
+            (E.rx(r"ChainStore>::get_block_hash$"), get_block_hash),
+            (E.rx(r"ChainStore>::get_block$"), get_block),
+            (E.rx(r"ChainStore>::get_block_ext$"), get_block_ext),
+            (E.rx(r"Shared::store$"), lambda ex, c, a, d: ex.ctx.ref_to(OpaqueV("store", "ChainDB"))),
+            (E.rx(r"BlockView::(header|data)$|Block::header$|Header::raw$|BlockView as Clone>::clone$|Byte32 as Clone>::clone$"), passthru),
+            (E.rx(r"RawHeader::parent_hash$"), parent_hash),
+            (E.rx(r"HeaderView::number$"), lambda ex, c, a, d: IntV(new_tip, "u64")),
+            (E.rx(r"Byte32 as PartialEq>::(eq|ne)$"), hash_eq),
+            (E.rx(r"is_sorted_assert$"), lambda ex, c, a, d: UNIT),
+        ] + list(E.LIST_ADAPTORS)
+        fork = AggV(tuple(ListV((), "VecDeque") if n in ("attached_blocks", "detached_blocks", "dirty_exts") else OpaqueV("field_" + n, "?") for n in ff), "ForkChanges")
+        tip_ext = AggV(tuple(OpaqueV(f"ext.N{new_tip}.{k}", "?") for k in range(len(fi))), "BlockExt")
+        fr = ctx.ref_to(fork)
+        ps = S.run(ctx, f[0], [ctx.ref_to(OpaqueV("proc", "ConsumeUnverifiedBlockProcessor")), fr, IntV(cur_tip, "u64"), ctx.ref_to(OpaqueV(f"block.N{new_tip}", "BlockView")), tip_ext])
+        S.prove(ctx, ob, f"{label}_no_panic", [], T.not_(cond_of(panics(ps))))
+        rs = returns(ps)
+        want_att = [f"block.N{n}" for n in sorted(new)]
+        want_det = [f"block.O{n}" for n in sorted(old)]
+        bad_att, bad_det, bad_ext = [], [], []
+        for p in rs:
+            from mir2smt.exec import post_value
+            post = post_value(ctx, p, fr)
+            att = [nmv(None, x) for x in post.fields[ff.index("attached_blocks")].items]
+            det = [nmv(None, x) for x in post.fields[ff.index("detached_blocks")].items]
+            exts = [nmv(None, x.fields[0]) if isinstance(x, AggV) else "?" for x in post.fields[ff.index("dirty_exts")].items]
+            if att != want_att:
+                bad_att.append(p.cond())
+            if det != want_det:
+                bad_det.append(p.cond())
+            # the exts must be those of the last len(exts) attached blocks, in the same order
+            tail = [b.replace("block.", "") for b in att[len(att) - len(exts):]] if len(exts) <= len(att) else None
+            if tail is None or [e.split(".")[1] for e in exts] != tail:
+                bad_ext.append(p.cond())
+            else:
+                # ... and exactly the longest unverified suffix: every block in the tail (but the tip) is unverified, the one before it is verified (or is the fork point)
+                conds = [T.not_(verified[int(b[1:])].t) for b in tail if int(b[1:]) != new_tip]
+                k = len(att) - len(exts)
+                if k > 0:
+                    conds.append(verified[int(att[k - 1].replace("block.N", ""))].t)
+                bad_ext.append(T.and_(p.cond(), T.not_(T.and_(*conds))))
+        S.prove(ctx, ob, f"{label}_attached_is_the_new_branch_in_ascending_order", [], T.not_(T.or_(*bad_att)) if bad_att else True, extra={"note": str(want_att)})
+        S.prove(ctx, ob, f"{label}_detached_is_the_old_branch_in_ascending_order", [], T.not_(T.or_(*bad_det)) if bad_det else True, extra={"note": str(want_det)})
+        S.prove(ctx, ob, f"{label}_dirty_exts_pair_with_the_unverified_tail_block_by_block", [], T.not_(T.or_(*bad_ext)))
+        S.prove(ctx, ob, f"{label}_every_flag_split_returns", [], T.or_(*[p.cond() for p in rs]))
+
+
+OBLIGATIONS = [m1_tip_switch, m2_orphan_retention_horizon, m3_find_fork]
 
 ENGINE = "M"
 LEVEL = "other"
